@@ -165,7 +165,11 @@ int FIXReader::callback_processor()
 {
 	int processed(0), ignored(0);
 
+#if (FIX8_MPMC_SYSTEM == FIX8_MPMC_TBB)
    for (; !_cancellation_token && !_session.is_shutdown();)
+#else
+   for (;;)
+#endif
    {
 		f8String *msg_ptr(0);
 #if (FIX8_MPMC_SYSTEM == FIX8_MPMC_TBB)
@@ -175,7 +179,15 @@ int FIXReader::callback_processor()
 			break;
 		msg_ptr = &msg;
 #else
-		_msg_queue.pop (msg_ptr); // will block
+		// poll (as the queue's blocking pop does) so that a stop is seen when the reader thread has already ended by itself
+		// (peer disconnected) and can no longer queue the empty quit marker; what is already queued is still processed
+		if (!_msg_queue.try_pop (msg_ptr))
+		{
+			if (_callback_cancellation_token || _cancellation_token || _session.is_shutdown())
+				break;
+			sched_yield();
+			continue;
+		}
 		if (msg_ptr->empty())  // means exit
 			break;
 #endif
